@@ -199,6 +199,7 @@ let ref_op (x : obj) (c : cur) (ret : string option) : refres =
   | "add_constraint" -> let k = read_con c n in same (union_sys xs (con_sys k))
   | "add_constraints" | "add_recycled_constraints" -> let ks = read_cons c n in same (union_sys xs (sys_of_cons ks))
   | "refine_with_constraint" -> let k = read_con c n in { (same (union_sys xs (con_sys k))) with claim = Sound; within_pre = true }
+  | "propagate_constraints" -> let ks = read_cons c n in { (same (union_sys xs (sys_of_cons ks))) with claim = Sound; within_pre = true }
   | "refine_with_constraints" -> let ks = read_cons c n in { (same (union_sys xs (sys_of_cons ks))) with claim = Sound; within_pre = true }
   | "add_congruence" | "refine_with_congruence" ->
       let (m, e) = read_cg c n in
@@ -551,6 +552,7 @@ let ref_new (o : obj) (how : string) (c : cur) : refres =
   | "cgs" -> let cgs = read_cgs c n in
       if List.exists (fun (m, _) -> m <> Z0) cgs then raise (Skip "proper congruence");
       mk [ { eqs = List.map snd cgs; ineqs = [] } ] Exact
+  | "twin" -> let src = get (nexti c) in { rdim = src.dim; pieces = [ src.gamma ]; claim = Exact; within_pre = false }
   | "from" ->
       let src = get (nexti c) in let cx = next c in
       (* every complexity class must be sound; the smallest enclosing element is documented for ANY_COMPLEXITY
